@@ -1,4 +1,5 @@
 import RepeVerif.Lemmas.Transfer
+import RepeVerif.Lemmas.TransferCondvar
 import RepeVerif.Gen.Transfer
 /-!
 # C11 — Flow-control accounting never over-grants credit
@@ -18,14 +19,19 @@ cap are `Gen.transferFacts`, re-extracted from src/stream.rs on every run.  `+` 
 addition in ℕ (no wrap-around).  All theorems hold for both build profiles (`m`).
 
 clause → theorem
-* facts the proofs rest on (re-checked by `decide`) ........... `ack_cap_fact`, `ack_file_fact`, `credit_add_fact`
+* facts the proofs rest on (re-checked by `decide`) ........... `ack_cap_fact`, `ack_file_fact`, `credit_add_fact`, `credit_checked_fact`,
+  `resume_cap_fact`, `reconnect_cancel_first_fact`, `advance_keeps_cancel_fact`
 * acked ≤ sent after every history .......................... `acked_le_sent`
 * foreign-file or stale ack changes nothing ................. `foreign_or_stale_ack_inert`
-* credit granted ⇒ nothing in flight ∨ in-flight + len ≤ window `credit_sound`  (and never a panic: `credit_never_panics`; converse: `credit_granted_iff`)
-* documented loop ⇒ in flight ≤ max window lastChunk ........ `loop_bound` (every prefix: `loop_bound_prefix`)
+* credit granted ⇒ nothing in flight ∨ in-flight + len ≤ window `credit_sound_all` (general form `credit_sound`; never a panic: `credit_never_panics`; converse: `credit_granted_iff`)
+* documented loop ⇒ in flight ≤ max window lastChunk ........ `loop_bound_all` (general forms `loop_bound`, `loop_bound_prefix`)
 * cancel permanent, first reason wins ....................... `cancel_sticky_first_reason`, `cancel_records_first`
 * every later wait reports it; resume refused ............... `waits_report_cancel`, `resume_refused_after_cancel`
 * the release profile never poisons the mutex ............... `release_never_poisons`
+* the idle watchdog only ever cancels; first reason wins against it; what refreshes its time stamps
+  ........................................................... `watchdog_only_cancels`, `watchdog_keeps_first_reason`, `watchdog_inputs`
+* composition with C12: same effect of every signalling method and same wait pass in both models; C12's
+  wake obligation read on the full model ...................... `refines_condvar_op`, `refines_condvar_wait`, `wake_obligation_on_full_model`
 * concurrent callers: every method is one lock region, so every interleaving of calls is a sequential
   history and all of the above applies to it ................. `single_section_ops`
 -/
@@ -43,6 +49,16 @@ theorem ack_file_fact : F.ackFileTest = true := by decide
 /-- `in_flight + chunk_len` is not a bare `+` (which wraps in release builds and panics under the mutex
 in dev builds): it is a checked or a saturating add. -/
 theorem credit_add_fact : F.creditAdd ≠ .unchecked := by decide
+/-- … in fact a checked add (`checked_add` with `None` read as "does not fit"): the sum is exact for every
+window, including `u64::MAX`, where a saturating add would over-grant. -/
+theorem credit_checked_fact : F.creditAdd = .checked := by decide
+/-- `request_resume`'s implicit ACK is capped: `&& last_received_offset <= sent_offset`. -/
+theorem resume_cap_fact : F.resumeCap = true := by decide
+/-- `wait_for_reconnect` looks at `cancelled` before it takes the pending resume. -/
+theorem reconnect_cancel_first_fact : F.reconnCancelFirst = true := by decide
+/-- `advance_to_file` does not touch `cancelled`. -/
+theorem advance_keeps_cancel_fact : F.advanceKeepsCancel = true := by decide
+
 /-- The credit sum is exact: a checked add always, a saturating add unless the window is `u64::MAX`. -/
 theorem credit_exact (w : Nat) (hw : F.creditAdd = .checked ∨ w + 1 < U64) : CreditExact F w := by
   rcases hw with h | h
@@ -58,7 +74,7 @@ theorem credit_exact (w : Nat) (hw : F.creditAdd = .checked ∨ w + 1 < U64) : C
 (in particular from a fresh control). -/
 theorem acked_le_sent (m : OvMode) (s : State) (h : s.acked ≤ s.sent) (ops : List Op) :
     (run F m s ops).acked ≤ (run F m s ops).sent :=
-  run_inv (fun s => s.acked ≤ s.sent) (fun s op h => step_acked_le_sent ack_cap_fact s op h) ops s h
+  run_inv (fun s => s.acked ≤ s.sent) (fun s op h => step_acked_le_sent ack_cap_fact resume_cap_fact s op h) ops s h
 
 theorem acked_le_sent_fresh (m : OvMode) (window capacity : Nat) (ops : List Op) :
     (run F m (init window capacity) ops).acked ≤ (run F m (init window capacity) ops).sent :=
@@ -79,6 +95,14 @@ theorem credit_sound (m : OvMode) (s : State) (len : Nat) (hw : F.creditAdd = .c
     (h : (step F m s (.waitCredit len)).2 = .creditOk) :
     s.cancelled = none ∧ (inFlight s = 0 ∨ inFlight s + len ≤ s.window) :=
   (waitCredit_ok ((credit_exact _ hw).addExact _ _) h).2
+
+/-- The property's clause at full strength, no side condition: with the checked add the source has, credit is
+granted only if nothing is in flight or in-flight plus the chunk fits the window — every state (every 64-bit
+`sent`, `acked`, `window`), every chunk length, both profiles. -/
+theorem credit_sound_all (m : OvMode) (s : State) (len : Nat)
+    (h : (step F m s (.waitCredit len)).2 = .creditOk) :
+    s.cancelled = none ∧ (inFlight s = 0 ∨ inFlight s + len ≤ s.window) :=
+  credit_sound m s len (Or.inl credit_checked_fact) h
 
 example : (step F .checks { window := 8, capacity := 0, sent := 4, acked := 1 } (.waitCredit 4)).2 = .creditOk := by decide
 example : (step F .wraps { window := 8, capacity := 0, sent := 4, acked := 1 } (.waitCredit 6)).2 = .creditTimeout := by decide
@@ -117,6 +141,13 @@ theorem loop_bound (m : OvMode) (window capacity : Nat) (hw : F.creditAdd = .che
   rw [h.2] at hb
   exact hb
 
+/-- The same without a side condition on the window (checked add). -/
+theorem loop_bound_all (m : OvMode) (window capacity : Nat) (a b : List Op)
+    (hf : Follows F m (init window capacity) {} (a ++ b)) :
+    inFlight (run F m (init window capacity) a) ≤
+      max window (runGhost F m (init window capacity) {} a).lastLen :=
+  loop_bound m window capacity (Or.inl credit_checked_fact) a (Follows.prefix a b _ _ hf)
+
 /-- … at every point of such a history, not only at its end. -/
 theorem loop_bound_prefix (m : OvMode) (window capacity : Nat) (hw : F.creditAdd = .checked ∨ window + 1 < U64)
     (a b : List Op) (hf : Follows F m (init window capacity) {} (a ++ b)) :
@@ -136,7 +167,7 @@ example : Follows F .checks (init 4 0) {}
 permanent, first reason wins. -/
 theorem cancel_sticky_first_reason (m : OvMode) (s : State) (r : Nat) (h : s.cancelled = some r) (ops : List Op) :
     (run F m s ops).cancelled = some r :=
-  run_inv (fun s => s.cancelled = some r) (fun s op h => step_cancel_sticky s op r h) ops s h
+  run_inv (fun s => s.cancelled = some r) (fun s op h => step_cancel_sticky advance_keeps_cancel_fact s op r h) ops s h
 
 /-- The first `cancel` records its reason. -/
 theorem cancel_records_first (m : OvMode) (s : State) (r : Nat) (hp : s.poisoned = false) (h : s.cancelled = none) :
@@ -149,14 +180,14 @@ theorem waits_report_cancel (m : OvMode) (s : State) (r : Nat) (h : s.cancelled 
     (hp : (run F m s ops).poisoned = false) :
     (∀ len, step F m (run F m s ops) (.waitCredit len) = (run F m s ops, .creditCancelled r)) ∧
     step F m (run F m s ops) .waitReconnect = (run F m s ops, .reconnCancelled r) :=
-  let hc := cancelled_waits (f := F) (m := m) _ r hp (cancel_sticky_first_reason m s r h ops)
+  let hc := cancelled_waits (f := F) (m := m) reconnect_cancel_first_fact _ r hp (cancel_sticky_first_reason m s r h ops)
   ⟨hc.1, hc.2.1⟩
 
 /-- … and a resume request is refused without touching peer, pending resume or offsets. -/
 theorem resume_refused_after_cancel (m : OvMode) (s : State) (r : Nat) (h : s.cancelled = some r) (ops : List Op)
     (hp : (run F m s ops).poisoned = false) (p file off : Nat) :
     step F m (run F m s ops) (.requestResume p file off) = (run F m s ops, .resumeCancelled) :=
-  (cancelled_waits (f := F) (m := m) _ r hp (cancel_sticky_first_reason m s r h ops)).2.2 p file off
+  (cancelled_waits (f := F) (m := m) reconnect_cancel_first_fact _ r hp (cancel_sticky_first_reason m s r h ops)).2.2 p file off
 
 example : ((step F .checks (init 4 4) (.cancel 5)).1).cancelled = some 5 ∧
     (run F .checks (step F .checks (init 4 4) (.cancel 5)).1 [.cancel 6, .advance 1, .recordAck 1 0]).poisoned = false := by
@@ -199,6 +230,104 @@ theorem single_section_ops :
 
 example : Merge [[.requestResume 7 0 1], [.cancel 0, .recordAck 0 1]] [.cancel 0, .requestResume 7 0 1, .recordAck 0 1] :=
   .pick _ 1 _ _ _ rfl (.pick _ 0 _ _ _ rfl (.pick _ 1 _ _ _ rfl (.done _ (by simp))))
+
+/-! ### the idle watchdog
+
+`spawn_watchdog` scans the registry's snapshot every tick; per transfer it reads `is_cancelled()`, the time
+stamps, and calls `cancel("transfer idle")` if the transfer looks idle. Time is the environment's boolean. -/
+
+/-- The only methods `watchdog_loop` calls on a transfer are `is_cancelled`, `timestamps` and `cancel`
+(re-extracted): `watchdogVisit` is what it can contribute to a history. -/
+theorem watchdog_calls_fact : Gen.watchdogOnlyCancels = true := by decide
+
+/-- A watchdog visit only ever cancels: every other field of the transfer is untouched, and it can only fill
+an *empty* cancel slot. -/
+theorem watchdog_only_cancels (m : OvMode) (s : State) (sawCancelled idle : Bool) :
+    run F m s (watchdogVisit sawCancelled idle) = s ∨
+    (s.cancelled = none ∧ run F m s (watchdogVisit sawCancelled idle) = { s with cancelled := some idleReason }) :=
+  watchdog_visit_effect s sawCancelled idle
+
+/-- First reason wins against the watchdog too, in every interleaving: if the transfer was cancelled with `r`
+at some point, then after any further history — other callers and any number of watchdog visits, whatever they
+saw (even a stale "not cancelled") and whatever the clock says — the reason is still `r`; and a transfer the
+watchdog cancelled stays cancelled with the idle reason. -/
+theorem watchdog_keeps_first_reason (m : OvMode) (s : State) (r : Nat) (h : s.cancelled = some r)
+    (visits : List (Bool × Bool)) (others : List Op) (hist : List Op)
+    (_hm : Merge [others, (visits.map fun v => watchdogVisit v.1 v.2).flatten] hist) :
+    (run F m s hist).cancelled = some r :=
+  cancel_sticky_first_reason m s r h hist
+
+example : (run F .checks (init 8 8) (watchdogVisit false true)).cancelled = some idleReason ∧
+    (run F .checks (run F .checks (init 8 8) [.cancel 3]) (watchdogVisit false true)).cancelled = some 3 := by decide
+
+/-- What feeds the watchdog: `record_sent` refreshes the chunk stamp, `record_ack` the ack stamp — even when
+the ack is for another file or stale and changes nothing else —, `advance_to_file` and an accepted resume both. -/
+theorem watchdog_inputs (m : OvMode) (s : State) (file off : Nat) (h : file ≠ s.file ∨ off ≤ s.acked) :
+    (step F m s (.recordAck file off)).1 = s ∧
+    (s.poisoned = false → stampEffect (.recordAck file off) (step F m s (.recordAck file off)).2 = (false, true)) := by
+  refine ⟨foreign_or_stale_ack_inert m s file off h, ?_⟩
+  intro hp
+  have : (step F m s (.recordAck file off)).2 = .unit := by
+    simp only [step, hp, if_false, Bool.false_eq_true]
+    repeat' split
+    all_goals rfl
+  rw [this]; rfl
+
+/-! ### composition with C12 (the condvar protocol)
+
+C12's model (`Repe.Condvar`, Model/Condvar.lean) keeps its own, smaller copy of the shared state. `absSh`
+forgets what C12 does not look at (ring bodies, byte budget, peer, poisoning). The three theorems below say
+that the two models are models of the same object: every signalling method has the same effect on
+`sent / acked / file / cancelled / pending resume / chunk boundaries`, one pass through either wait loop
+returns the same value, and therefore C12's wake-up obligation — proved in `Lemmas/Condvar.lean` for every
+adequate notify table and instantiated by `C12.wake_obligation` with the extracted table — can be read on
+the states and steps the history theorems above are about. -/
+
+/-- All forms the refinement needs are the ones the source has. -/
+theorem std_forms_fact : F.Std := by decide
+
+/-- **Refinement, signalling methods.** (The push must be one the `debug_assert!` accepts and must not evict:
+C12's model has no eviction.) -/
+theorem refines_condvar_op (m : OvMode) (t : Condvar.NotifyTable) (s : State) (cop : Condvar.Op)
+    (p : Nat) (last : Bool) (body : Bytes) (hp : s.poisoned = false)
+    (hedge : ∀ c, s.chunks.getLast? = some c → c.offset + c.dataLen < U64) (hpush : PushFits F m s cop) :
+    absSh (step F m s (ofCondvarOp p last body cop)).1 = (Condvar.applyOp t cop (absSh s)).1 :=
+  (sim_op std_forms_fact m t s cop p last body hp hedge hpush).1
+
+/-- **Refinement, waits.** One pass of `wait_for_credit` / `wait_for_reconnect` with the deadline reached. -/
+theorem refines_condvar_wait (m : OvMode) (s : State) (k : Condvar.Kind) (hp : s.poisoned = false)
+    (hw : s.window < U64) :
+    ∃ r, toCondvarRet (step F m s (waitOp k)).2 = some r ∧
+      Condvar.runBody k true Condvar.stdLoop (absSh s) = some (absSh (step F m s (waitOp k)).1, .returned r) :=
+  let ⟨r, h1, h2, _⟩ := sim_wait std_forms_fact m s k hp hw
+  ⟨r, h1, h2⟩
+
+/-- **C12's no-lost-wake-up obligation on the full model.** If a wait on state `s` would time out and after
+a signalling call it would not, then that call reaches `notify_all()` — for every notify table adequate in
+C12's sense (`C12.source_facts` shows the extracted one is). Proof: the refinement above plus
+`Condvar.wake_obligation_generic`, the lemma behind `C12.wake_obligation`. -/
+theorem wake_obligation_on_full_model (t : Condvar.NotifyTable) (ht : t.adequate = true) (m : OvMode) (s : State)
+    (cop : Condvar.Op) (p : Nat) (last : Bool) (body : Bytes) (k : Condvar.Kind) (hp : s.poisoned = false)
+    (hw : s.window < U64)
+    (hedge : ∀ c, s.chunks.getLast? = some c → c.offset + c.dataLen < U64) (hpush : PushFits F m s cop)
+    (h0 : toCondvarRet (step F m s (waitOp k)).2 = some .timeout)
+    (h1 : toCondvarRet (step F m (step F m s (ofCondvarOp p last body cop)).1 (waitOp k)).2 ≠ some .timeout) :
+    (Condvar.applyOp t cop (absSh s)).2 = true := by
+  obtain ⟨hsim, hp'⟩ := sim_op std_forms_fact m t s cop p last body hp hedge hpush
+  have hw' : (step F m s (ofCondvarOp p last body cop)).1.window < U64 := by rw [step_window]; exact hw
+  have hpre : Condvar.pred k (absSh s) = false := by
+    cases hpr : Condvar.pred k (absSh s) with
+    | false => rfl
+    | true => exact absurd h0 ((pred_iff_not_timeout std_forms_fact m s k hp hw).mp hpr)
+  have hpost := (pred_iff_not_timeout std_forms_fact m _ k hp' hw').mpr h1
+  rw [hsim] at hpost
+  exact Condvar.wake_obligation_generic t ht k cop (absSh s) hpre hpost
+
+-- non-vacuity: window 8, 8 bytes in flight; a credit wait for 4 times out, after `record_ack(0, 4)` it is granted
+example :
+    toCondvarRet (step F .checks { window := 8, capacity := 8, sent := 8 } (waitOp (.credit 4))).2 = some .timeout ∧
+    toCondvarRet (step F .checks (step F .checks { window := 8, capacity := 8, sent := 8 }
+      (ofCondvarOp 1 false [] (.ack 0 4))).1 (waitOp (.credit 4))).2 = some .ok := by decide
 
 /-! ### Why the sum must not be a bare `+` (finding F3 of DESIGN.md §9)
 
